@@ -104,6 +104,25 @@ def sqrtHi (q : Rat) : Rat :=
   ((Nat.sqrt n + 1 : Nat) : Rat) / (scaleN : Rat)
 def sqrt (a : I) : I := ⟨sqrtLo a.lo, sqrtHi a.hi⟩
 
+/-! ### 2·atanh series and ln 2 (needed by exp's range reduction) -/
+
+/-- 2·atanh z series in fixed point: Σ_{k≤n} 2 z^(2k+1)/(2k+1), |z| ≤ 1/3, with remainder bound
+2|z|^(2n+3)/((2n+3)(1−z²)) ≤ 3|z|^(2n+3)/(2n+3)·… (we use 1/(1−z²) ≤ 9/8) -/
+def atanh2F (z : FI) : FI :=
+  let n := 45
+  let z2 := FI.sq z
+  let (s, pw) := (List.range (n + 1)).foldl (fun (acc : FI × FI) k =>
+    let (s, pw) := acc
+    (FI.add s (FI.divNat (FI.mulInt pw 2) (2 * k + 1)), FI.mul pw z2)) ((⟨0, 0⟩ : FI), z)
+  -- pw encloses z^(2n+3)
+  let pa := FI.imax (-pw.lo) pw.hi
+  let rem : Int := -(Int.fdiv (-(pa * 9)) (4 * (2 * n + 3 : Nat))) + 1     -- 2·(9/8)·|pw|/(2n+3)
+  FI.widen s rem
+
+def atanh2 (z : Rat) : I := (atanh2F (FI.ofRat z)).toI
+
+def ln2 : I := atanh2 (1 / 3)
+
 /-! ### exp -/
 
 def ratPowNat (q : Rat) (n : Nat) : Rat := (List.range n).foldl (fun acc _ => acc * q) 1
@@ -145,28 +164,21 @@ def expF (q : Rat) : FI :=
   let r := q / ((2 ^ k : Nat) : Rat)
   (List.range k).foldl (fun acc _ => FI.sq acc) (expSmallF (FI.ofRat r))
 
-def expQ (q : Rat) : I := (expF q).toI
+/-- enclosure of exp q: write q = e·ln 2 + r with e = ⌊q·(1/ln 2)⌋ (any integer works) so that r is small,
+enclose exp r in fixed point and scale by the exact power 2^e — this keeps full RELATIVE precision for
+very negative q (results far below 2^-prec) -/
+def expQ (q : Rat) : I :=
+  if ratAbs q ≤ 1 then (expF q).toI else
+  let e : Int := (q * (14427 / 10000)).floor
+  let r := sub (ofRat q) (scale (e : Rat) ln2)          -- q − e ln 2, a tiny interval around a number in about [0, 0.7]
+  let lo := (expF r.lo).toI.lo
+  let hi := (expF r.hi).toI.hi
+  let p := pow2 e
+  ⟨lo * p, hi * p⟩
 
 def exp (a : I) : I := ⟨(expQ a.lo).lo, (expQ a.hi).hi⟩
 
 /-! ### log -/
-
-/-- 2·atanh z series in fixed point: Σ_{k≤n} 2 z^(2k+1)/(2k+1), |z| ≤ 1/3, with remainder bound
-2|z|^(2n+3)/((2n+3)(1−z²)) ≤ 3|z|^(2n+3)/(2n+3)·… (we use 1/(1−z²) ≤ 9/8) -/
-def atanh2F (z : FI) : FI :=
-  let n := 45
-  let z2 := FI.sq z
-  let (s, pw) := (List.range (n + 1)).foldl (fun (acc : FI × FI) k =>
-    let (s, pw) := acc
-    (FI.add s (FI.divNat (FI.mulInt pw 2) (2 * k + 1)), FI.mul pw z2)) ((⟨0, 0⟩ : FI), z)
-  -- pw encloses z^(2n+3)
-  let pa := FI.imax (-pw.lo) pw.hi
-  let rem : Int := -(Int.fdiv (-(pa * 9)) (4 * (2 * n + 3 : Nat))) + 1     -- 2·(9/8)·|pw|/(2n+3)
-  FI.widen s rem
-
-def atanh2 (z : Rat) : I := (atanh2F (FI.ofRat z)).toI
-
-def ln2 : I := atanh2 (1 / 3)
 
 def logQ (q : Rat) : I :=
   if q ≤ 0 then ⟨-(scaleN : Rat), -(scaleN : Rat)⟩ else
@@ -216,7 +228,10 @@ def sqrt2piF : FI := ⟨(sqrt2pi.lo * (scaleN : Rat)).floor, (sqrt2pi.hi * (scal
 
 /-- φ(z) = exp(−z²/2)/√(2π) -/
 def phiF (z : Rat) : FI := FI.divPos (expF (-(z * z) / 2)) sqrt2piF
-def phi (z : Rat) : I := (phiF z).toI
+/-- exact-rational quotient of the two enclosures (no absolute rounding: keeps relative precision in the far tails) -/
+def phi (z : Rat) : I :=
+  if ratAbs z ≤ 1 then (phiF z).toI
+  else let e := expQ (-(z * z) / 2); ⟨e.lo / sqrt2pi.hi, e.hi / sqrt2pi.lo⟩
 
 /-- series loop for Σ z^(2k+1)/(2k+1)!! on the fixed-point grid 2^-prec: `t` is the current term
 (scaled by 2^prec, rounded up), `s` the running sum (scaled); stops when the term is at most one
@@ -231,11 +246,38 @@ def phiLoop (zn zd : Nat) : Nat → Nat → Nat → Nat → Nat × Nat × Nat
       let t' := (t * zn + den - 1) / den          -- ⌈t ρ_k⌉
       phiLoop zn zd f (k + 1) (s + t') t'
 
+/-- loop of `PhiTail`: `j` = index of the next term, `s` = alternating partial sum with rounded terms,
+`c` = previous term (rounded up), `lo`/`hi` = last odd / even partial sum -/
+def phiTailLoop (a2 : Rat) : Nat → Nat → Rat → Rat → Rat → Rat → Rat × Rat
+  | 0, _, _, _, lo, hi => (lo, hi)
+  | f + 1, j, s, c, lo, hi =>
+    let c' := rup (c * ((2 * j - 1 : Nat) : Rat) / a2)
+    if c' ≥ c then (lo, hi)                       -- terms started growing: stop
+    else if j % 2 == 1 then
+      let s' := s - c'
+      phiTailLoop a2 f (j + 1) s' c' s' hi
+    else
+      let s' := s + c'
+      phiTailLoop a2 f (j + 1) s' c' lo s'
+
+/-- upper-tail mass 1 − Φ(a) for a > 7 by the enveloping asymptotic series
+φ(a)/a · (1 − 1/a² + 3/a⁴ − 15/a⁶ + …): consecutive partial sums bracket the value
+(odd ones from below, even ones from above); we stop at the smallest term (at most 60 terms)
+and allow 2^-100 for the accumulated rounding of the terms. -/
+def PhiTail (a : Rat) : I :=
+  let a2 := a * a
+  let (lo, hi) := phiTailLoop a2 60 1 1 1 0 1
+  let d : Rat := 1 / ((2 ^ 100 : Nat) : Rat)
+  let lo := ratMax (lo - d) 0
+  let hi := hi + d
+  let p := phi a
+  ⟨p.lo / a * lo, p.hi / a * hi⟩
+
 /-- Φ(z) enclosure.  |z| ≤ 7: 1/2 + φ(z) Σ z^(2k+1)/(2k+1)!!, remainder by the geometric bound;
-|z| > 7: Mills ratio bounds 0 ≤ Φ(−|z|) ≤ φ(z)/|z|. -/
+|z| > 7: enveloping asymptotic series (`PhiTail`). -/
 def Phi (z : Rat) : I :=
   if ratAbs z > 7 then
-    let t : I := ⟨0, (div (phi z) (ofRat (ratAbs z))).hi⟩
+    let t : I := PhiTail (ratAbs z)
     if z < 0 then t else sub (ofRat 1) t
   else
     let az := ratAbs z
